@@ -23,6 +23,10 @@ def neutral(name):
     return name
 
 
+# crate functions without effects (read a field / a discriminant): how often they are evaluated is not behaviour
+PURE_ACCESSORS = {"is_update", "is_zero", "is_op", "item_size"}
+
+
 def effect_label(fl, body, t):
     """Flavour-neutral label of an effectful call, or None."""
     c = body.callee_of(t)
@@ -64,14 +68,46 @@ def effect_label(fl, body, t):
                 return "call* " + neutral(sc)
             if "::{closure" in sc:
                 return None
+            if sc.split("::")[-1] in PURE_ACCESSORS:
+                return None
             return "call " + neutral(sc)
     return None
 
 
-def ret_class(body, rbi, rsi):
-    e = norm(body.def_expr(rbi, rsi, True))
+def ret_leaves(body, max_depth=6):
+    """Expressions that can reach the return place: definitions of _0, followed through locals that
+    merely carry the value (several definitions on different paths, e.g. the result slot of a
+    desugared combinator)."""
+    out = []
+    seen = set()
+
+    def walk(l, depth):
+        for bi, si in body.defs.get(l, []):
+            if (bi, si) in seen:
+                continue
+            seen.add((bi, si))
+            bb = body.blocks[bi]
+            if si < len(bb["stmts"]):
+                st = bb["stmts"][si]
+                rv = st["rv"]
+                if rv["k"] == "use" and rv["op"].get("k") in ("move", "copy") and not rv["op"]["pl"]["p"] and depth < max_depth:
+                    l2 = rv["op"]["pl"]["l"]
+                    if l2 not in body.local_name and not (1 <= l2 <= body.arg_count) and body.defs.get(l2):
+                        walk(l2, depth + 1)
+                        continue
+            out.append(norm(body.def_expr(bi, si, True)))
+    walk(0, 0)
+    return out
+
+
+def ret_class(body, rbi, rsi, e=None):
+    e = norm(body.def_expr(rbi, rsi, True)) if e is None else e
     if e[0] == "agg" and e[1] == "adt":
         name = e[2].split("::")[-1]
+        if name in ("Some", "None"):
+            return "value"  # `match x { Some(v) => Some(v), None => None }` and `x` are the same return
+        if name == "Err":
+            return "Err"  # which error value, and whether it is built here or forwarded by `?`, depends on the spelling
         if e[3] and e[3][0][0] == "const":
             return "%s(%s)" % (name, e[3][0][1])
         if e[3] and e[3][0][0] == "agg" and e[3][0][1] == "adt":
@@ -82,7 +118,7 @@ def ret_class(body, rbi, rsi):
     if e[0] == "const":
         return "const %s" % e[1]
     if is_call(e, "FromResidual::from_residual"):
-        return "Err(?)"
+        return "Err"
     return "value"
 
 
@@ -91,6 +127,10 @@ def skeleton(fl, body, with_nested=True):
     Effects of closures created in the body (and not belonging to dependency macros) are added as
     a flat `in-closure` set because combinators decide when they run."""
     facts = fl.facts
+    # flattened: a closure given to map / map_err / and_then / for_each ... is control flow of the
+    # body itself, so `x.map_err(..).and_then(|i| f(i))`, `match x {..}` and `let i = x.map_err(..)?; f(i)`
+    # have the same skeleton
+    body = facts.flat(body)
 
     def lab(bi, t):
         return effect_label(fl, body, t)
@@ -99,17 +139,18 @@ def skeleton(fl, body, with_nested=True):
     for s, cnt in outs:
         sig.add(tuple(sorted(cnt.items())))
     closure_effects = set()
+    inlined = set(body.raw.get("inlined_closures", []))
     if with_nested:
         for x in descendants(facts, body):
-            if x is body or not user_code(x):
+            if x is body or not user_code(x) or x.path in inlined:
                 continue
             for bi, t in x.calls():
                 l = effect_label(fl, x, t)
                 if l:
                     closure_effects.add(l.replace("call* ", "call "))
     rets = set()
-    for rbi, rsi in body.defs.get(0, []):
-        rets.add(ret_class(body, rbi, rsi))
+    for e in ret_leaves(body):
+        rets.add(ret_class(body, None, None, e))
     return sig, closure_effects, rets
 
 
@@ -131,6 +172,8 @@ PAIRS = [
 ACCEPTED = {
     ("cache::try_insert_in", "path", "async"): "sync sends from the closure given to Option::map_or, async inline after `if let Some(..)`: same effects (union checked), different nesting",
     ("cache::try_insert_in", "closure", "sync"): "see path",
+    ("cache::try_insert_in", "path", "sync"): "crossbeam's select! default arm never touches the channel, the async select! polls the send future before it falls to `default`: the buffer-full path "
+                                              "shows a (never completed) send on the async side only; both end in DropSets with the item not queued (same as policy::push)",
     ("cache::try_insert_in", "ret", "async"): "Ok(true) is produced inside the sync closure",
     ("cache::wait", "ret", "sync"): "sync propagates the send error with `?` (F8 fix), async matches on it: both return CacheError::SendError",
     ("cache::wait", "ret", "async"): "see sync",
